@@ -2,7 +2,7 @@
 # Builds ccshuttle against /repo's working tree through the shadow manifest, hook enabled.
 set -e
 export CARGO_NET_OFFLINE=true
-python3 /verif/tools/mkshadow.py
-cd /verif/shuttle
-mkdir -p /verif/build
-RUSTFLAGS="--cfg cosmian_cover_crypt_verif" cargo build --release --offline 2>/verif/build/build-shuttle.log || { tail -30 /verif/build/build-shuttle.log; echo "HARNESS ERROR: shuttle build failed" >&2; exit 2; }
+cd "$(dirname "$0")"
+python3 ../tools/mkshadow.py
+mkdir -p ../build
+RUSTFLAGS="--cfg cosmian_cover_crypt_verif" cargo build --release --offline 2>../build/build-shuttle.log || { tail -30 ../build/build-shuttle.log; echo "HARNESS ERROR: shuttle build failed" >&2; exit 2; }
